@@ -131,6 +131,9 @@ class _VersionMatch(GenericEquality, restriction.base):
                 self.droprev != other.droprev
                 or self.ver != other.ver
                 or self.rev != other.rev
+                # a missing revision is not revision 0 (no revision does not
+                # match -r0, revision "" / "0" does), although it compares equal to it
+                or (self.rev is None) != (other.rev is None)
             ):
                 return False
             return self._convert_ops(self) == self._convert_ops(other)
